@@ -152,6 +152,20 @@ class C37(core.Check):
         c.append({'ops': [['J', [[65 + i] for i in range(20)]], ['D', [122], 44], ['P', 1050], ['P', 1052]] +
                          [['I']] * 3 + [['F', 1050, 1052], ['I']]})
         c.append({'ops': [['K', 1050, 256], ['K', 1050, 31], ['P', 1050], ['K', 1052, 61], ['P', 1052], ['I']]})
+        # overflow with the head not at slot 0: the uncounted CR lands in the free slot before head
+        c.append({'ops': [['D', [65], 30]] * 5 + [['I']] * 5 + [['D', [66 + i], 48 + i] for i in range(17)] +
+                         [['P', a] for a in range(1050, 1086)] + [['I']] * 16})
+        # pointer pokes to / from ring slot 0 with keys waiting across the wrap
+        c.append({'ops': [['D', [97 + i], 30 + i] for i in range(14)] + [['I']] * 12 +
+                         [['D', [65 + i], 30] for i in range(6)] + [['P', 1050], ['P', 1052], ['K', 1050, 30],
+                          ['P', 1050], ['P', 1052], ['I'], ['K', 1052, 30], ['P', 1050], ['P', 1052], ['I'],
+                          ['K', 1052, 32], ['I'], ['I'], ['F', 1050, 1052], ['I']]})
+        # head index far beyond 32 (the internal list only grows), then every slot incl. slot 15 peeked / poked
+        w = []
+        for r in range(8):
+            w += [['D', [48 + (7 * r + i) % 70], 2 + i] for i in range(13)] + [['I']] * 13
+        c.append({'ops': w + [['D', [120], 45], ['D', [121], 21], ['K', 1084, 90], ['K', 1085, 44], ['K', 1086, 1],
+                              ['K', 1053, 9], ['K', 1051, 9]] + [['P', a] for a in range(1050, 1086)] + [['I']] * 3})
         return c
 
     def gen_case(self, rng):
